@@ -76,6 +76,7 @@ class ProbeEngine(object):
         self.w = world
         self.t = world.tape
         self.tier = tier
+        self.huge_console = False
         self.seq_info = {}
         self.responded = set()
         self.fatal_too = set()
@@ -647,8 +648,14 @@ class ProbeEngine(object):
                 ln = [5, m.iobuf_size, m.iobuf_size + 1,
                       3 * m.iobuf_size + 7][t.draw(4)]
                 ln = min(ln, 5000)
-                ch.cores[p].iobuf = bytes(32 + ((i * 7 + p) % 90)
-                                          for i in range(ln))
+                if m.iobuf_size == 16384 and not self.huge_console and \
+                        t.draw(60 if self.tier == "thorough" else 1500) == 0:
+                    # a console of more than 8 MiB (hundreds of blocks)
+                    ln = (8 << 20) + 16384 * (1 + t.draw(40)) + t.draw(999)
+                    self.huge_console = True
+                    w.probe("iobuf_over_8MiB")
+                pat = bytes(32 + ((i * 7 + p) % 90) for i in range(90))
+                ch.cores[p].iobuf = (pat * (ln // 90 + 1))[:ln]
                 k = t.draw(6)
                 if k == 0 and ln >= 5:
                     # not text at all (the console holds whatever the
